@@ -22,6 +22,47 @@ BDD_STREAM = {
     ],
 }
 
+TBL_STREAM = {
+    "name": "tbl",
+    "quick": {"cases": 600, "args": ["--maxops=60"]},
+    "thorough": {"cases": 20000, "args": ["--maxops=400"]},
+    "shrink_levels": [
+        {"cases": 2000, "args": ["--maxops=4"]},
+        {"cases": 2000, "args": ["--maxops=6"]},
+        {"cases": 2000, "args": ["--maxops=10"]},
+        {"cases": 2000, "args": ["--maxops=20"]},
+    ],
+}
+
+LRU_STREAM = {
+    "name": "lru",
+    "quick": {"cases": 600, "args": ["--maxops=40"]},
+    "thorough": {"cases": 20000, "args": ["--maxops=200"]},
+    "shrink_levels": [
+        {"cases": 2000, "args": ["--maxops=4"]},
+        {"cases": 2000, "args": ["--maxops=8"]},
+        {"cases": 2000, "args": ["--maxops=16"]},
+    ],
+}
+
+RING_STREAM = {
+    "name": "ring",
+    "quick": {"cases": 1200, "args": []},
+    "thorough": {"cases": 60000, "args": []},
+    "shrink_levels": [{"cases": 3000, "args": []}],
+}
+
+WMC_STREAM = {
+    "name": "wmc",
+    "quick": {"cases": 250, "args": ["--maxvars=6", "--maxops=30"]},
+    "thorough": {"cases": 6000, "args": ["--maxvars=8", "--maxops=50"]},
+    "shrink_levels": [
+        {"cases": 600, "args": ["--maxvars=2", "--maxops=6"]},
+        {"cases": 600, "args": ["--maxvars=3", "--maxops=8"]},
+        {"cases": 600, "args": ["--maxvars=4", "--maxops=12"]},
+    ],
+}
+
 BDD_RULE = ("operation programs over RobddBuilder (random/linear/reversed orders, AllIteTable or LruIteTable with hooked "
             "capacity 2^0..2^3, hooked unique-table capacity 4..16 so the table grows repeatedly); a case is non-trivial when "
             "at least one result has a node whose child is a node; distinct = distinct program text")
@@ -51,7 +92,7 @@ PROPS = {
     },
     "C02": {
         "modules": ["RsddModel.Props.C02", "RsddModel.Props.C02Table", "RsddModel.Props.Tie"],
-        "streams": [BDD_STREAM],
+        "streams": [BDD_STREAM, TBL_STREAM],
         "rule": BDD_RULE,
         "trusted": ["modelled not verified: bump allocator, FxHasher, psl as u8 (PslBound hypothesis: no probe sequence reaches 256)"],
         "assumptions": ["every call passes hashOf(key) for one fixed hash function", "psl < 256 (not reachable through the builder)"],
@@ -66,7 +107,7 @@ PROPS = {
     },
     "C16": {
         "modules": ["RsddModel.Props.C16", "RsddModel.Props.Tie"],
-        "streams": [BDD_STREAM],
+        "streams": [BDD_STREAM, LRU_STREAM],
         "rule": BDD_RULE,
         "trusted": ["modelled not verified: FxHasher (any function of the key)"],
         "assumptions": ["the hash passed with a key is a function of the key (true of LruIteTable)"],
@@ -78,5 +119,48 @@ PROPS = {
                       "(true for LruIteTable; the stale-value counterexample for inconsistent hashes is a theorem). FxHasher modelled as arbitrary.",
         "explanation": "lru_lawful (history form), lru_never_foreign, lru_grow_keeps, LruCache is a lawful CacheImpl for all "
                        "parameters, hence builder results are cache-independent.",
+    },
+    "C13": {
+        "modules": ["RsddModel.Props.C13", "RsddModel.Props.Tie"],
+        "streams": [RING_STREAM],
+        "rule": "triples (a,b,c) per weight type: finite fields for all 7 exported primes with boundary residues {0,1,2,P/2,P/2+1,P-2,P-1}, "
+                "small and random residues; reals/EU/complex on dyadic k/8 (exact in f64); Booleans exhaustively; truncated polynomials over "
+                "FiniteField<U32_TINY> with lengths 0,1,MAX-1,MAX; non-trivial = operands not 0/1 (ff), length > 1 (poly); distinct = distinct line",
+        "trusted": ["modelled not verified: f64 is modelled by exact rationals (the stream only uses dyadic values on which every f64 operation is exact); "
+                    "the `rational` crate behind RationalSemiring (no public constructor: only 0/1 sums and products are reachable)"],
+        "assumptions": ["values are exactly representable (property text)", "polynomial laws are for well-formed values (len <= MAX_COEFFS, zero tail) — all values the library constructs"],
+        "level_text": "Kernel-checked commutative-semiring laws for every shipped weight type (real/rational over Rat, Boolean, expected utility, complex, "
+                      "finite field on the carrier {v < P}, truncated polynomials on well-formed values), finite-field ops = integer arithmetic mod P with "
+                      "no u128 overflow for every exported prime (list regenerated from the source and re-decided by the kernel), subtraction inverts "
+                      "addition, lattice laws and order compatibility of join/meet/choose; negative theorems for the pinned sub/mul.",
+        "level_note": "Trusted: Lean kernel; allowed axioms; harness+driver. f64 modelled by Rat (exact on the dyadic domain the property names).",
+        "explanation": "C13.* + Tie.* theorems; ring stream: implementation vs exact arithmetic, vs the mirrored model, and the laws on the implementation's own outputs.",
+    },
+    "C07": {
+        "modules": ["RsddModel.Props.C07Bdd"],
+        "streams": [WMC_STREAM],
+        "rule": "diagrams taken from builder pools (three largest distinct + one random per program), random orders; normalised field weights for a "
+                "random exported prime, arbitrary integer weights 0..5, dyadic real weights; non-trivial = diagram has a node below a node",
+        "trusted": ["modelled not verified: memoisation in scratch cells (C10), f64 (dyadic weights only)",
+                    "SDD and decision-DNNF counts are covered by the sdd/td streams once those models exist (BDD part proved here)"],
+        "assumptions": ["diagram is free (no variable twice on a path) — true of every ROBDD/decision-DNNF (C02/C06)"],
+        "level_text": "Kernel-checked: for every free diagram, commutative semiring and normalised weights the count equals the brute-force sum over all "
+                      "assignments (wmc_eq_bruteforce), independent of order and complement edges (wmc_order_independent, wmc_complement), evaluation "
+                      "agrees with the denoted function (evaluate_agrees), and for reduced ordered BDDs with arbitrary weights the count is the "
+                      "order-recursive sum over the variables each sub-function depends on (wmc_arbitrary_weights).",
+        "level_note": "Trusted: Lean kernel; allowed axioms; harness+driver. Tree-level fold (sharing/memo is C10's subject). SDD part: see C03/C04 status in DESIGN.md.",
+        "explanation": "C07Bdd.* theorems; wmc stream compares implementation counts with brute-force sums and the mirrored fold.",
+    },
+    "C08": {
+        "modules": ["RsddModel.Props.C08"],
+        "streams": [WMC_STREAM],
+        "rule": "as C07; every diagram is smoothed over all n variables; the smoothed diagram, its paths, weighted and unweighted counts are compared",
+        "trusted": ["modelled not verified: get_or_insert as structural normalisation (C02)"],
+        "assumptions": ["input diagram is ordered w.r.t. the builder's order with all levels < n (C02 wf_of_run)"],
+        "level_text": "Kernel-checked: smoothing keeps the function (smooth_same_function), every path of the result tests exactly the first n variables "
+                      "of the order in order (smooth_paths_exact), hence its count equals the brute-force weighted sum for arbitrary weights (smooth_wmc) "
+                      "and the number of models for unit weights (smooth_count); smoothH_orig_wrong is the negative theorem for the pinned helper.",
+        "level_note": "Trusted: Lean kernel; allowed axioms; harness+driver.",
+        "explanation": "C08.* theorems; wmc stream checks function, paths, counts and exact equality with the mirrored smooth.",
     },
 }
